@@ -15,6 +15,7 @@ import (
 	"syscall"
 	"time"
 
+	"github.com/safing/portbase/database/query"
 	"github.com/safing/portbase/database/record"
 	"github.com/safing/portbase/database/storage/fstree"
 	"github.com/safing/portbase/updater"
@@ -171,8 +172,45 @@ func (w *world) checkOnce(mustExist bool) (state string, bad string) {
 		if !ok || (!bytes.Equal(wr.Data, w.payloadA) && !bytes.Equal(wr.Data, w.payloadB)) {
 			return "", "fstree.Get returned a record whose data is neither old nor new"
 		}
+		// the backend's query path: every record it delivers for this key must be a complete value
+		if bad := w.queryOnce(); bad != "" {
+			return "", bad
+		}
 	}
 	return state, ""
+}
+
+// queryOnce runs one prefix query over the record's directory.
+func (w *world) queryOnce() string {
+	key := fstreeKey(w.sp)
+	prefix := ""
+	if i := strings.LastIndex(key, "/"); i >= 0 {
+		prefix = key[:i+1]
+	}
+	q, err := query.New("c17:" + prefix).Check()
+	if err != nil {
+		return ""
+	}
+	it, err := w.fst.Query(q, true, true)
+	if err != nil {
+		return ""
+	}
+	bad := ""
+	for r := range it.Next {
+		if r.DatabaseKey() != key {
+			continue // neighbours and temporaries in the directory are not this destination
+		}
+		wr, ok := r.(*record.Wrapper)
+		if !ok || (!bytes.Equal(wr.Data, w.payloadA) && !bytes.Equal(wr.Data, w.payloadB)) {
+			n := -1
+			if ok {
+				n = len(wr.Data)
+			}
+			bad = fmt.Sprintf("fstree.Query delivered a record for the key whose data (%d bytes) is neither the old (%d) nor the new (%d) value", n, len(w.payloadB), len(w.payloadA))
+		}
+	}
+	// it.Err(): a query may fail on a temporary file it walks over; that is not this destination's state
+	return bad
 }
 
 func readLoop(ws []*world, mustExist bool, stop func() bool) *readerStats {
